@@ -152,6 +152,18 @@ chk("C01", "model_checking",
     "TLA+ spec (CertChain, ResChain) model-checked by TLC; behaviours replayed into real certificates; impl->spec trace validation",
     "DESIGN.md §3 C01")
 
+chk("C02", "fault_enumeration",
+    "SignedObj.tla states acceptance as the conjunction of the facets (required signed attributes once each, content-type attribute "
+    "matches, digest, signature over the SET OF attributes under the EE key, signer id = EE SKI, EE certificate validates under the "
+    "issuer, coverage of ROA prefixes / ASPA customer with no IP and no inheritance, CRL callback) and a machine applying up to 2/3 "
+    "deviations to a conforming ROA, ASPA, manifest or generic object whose signed attributes total 107/127/128/129/255/256/257 bytes; "
+    "TLC checks single-point rejection and monotonicity. Every state is assembled byte by byte by the harness' own RFC 5652/6488 "
+    "encoder with real keys and certificates and run through strict decode + validate/process; random ROAs/ASPAs against random "
+    "full-width EE resources are validated by Trace_SignedObj.",
+    "Decision structure enumerated, bytes sampled (one flipped bit per tampered field); wall clock for process(); crypto through verdicts only.",
+    "TLA+ spec (SignedObj) model-checked by TLC; every state realised by an independent CMS encoder; impl->spec trace validation of coverage",
+    "DESIGN.md §3 C02")
+
 ALL = ["C%02d" % i for i in range(1, 18)]
 
 
